@@ -194,13 +194,15 @@ where
             }
 
             // 2. Sample a state (q_rand)
-            let q_rand = if rng.random_bool(self.goal_bias) {
-                // TODO: assume sample_goal can't fail here for simplicity, but a real
-                // implementation would handle the Result.
-                goal.sample_goal(&mut rng).unwrap()
+            let sampled = if rng.random_bool(self.goal_bias) {
+                goal.sample_goal(&mut rng)
             } else {
-                // TODO: assume uniform sampling can't fail if bounds are set correctly.
-                pd.space.sample_uniform(&mut rng).unwrap()
+                pd.space.sample_uniform(&mut rng)
+            };
+            // A sampler that cannot deliver a state ends the search with an error.
+            let q_rand = match sampled {
+                Ok(state) => state,
+                Err(_) => break Err(PlanningError::NoSolutionFound),
             };
 
             // 3. Find the nearest node in the tree (q_near)
